@@ -11,15 +11,16 @@ from .lib.mir import AnchorLost
 CONFIGS_QUICK = ["A", "R"]
 CONFIGS_THOROUGH = ["A", "R"]
 TECHNIQUE = "order-parity rule over the container disciplines (push/pop sites) of the multipart parser and its deserializers, extent pairing of the content slice with the verified delimiter CRLF, decision tables of the field deserializer, literal table of the part headers (built MIR)"
-LEVEL_TEXT = ('Decides clauses C10-a..e: the parser appends parts in submission order and every later stage takes elements either first-in-first-out or last-in-'
-              'first-out; the number of last-in-first-out stages between the parse and the delivery of the files of one name is even (today two: Multipart::next pops'
-              ' the part list, the file sequence pops the group), and no stage reverses, sorts or removes from the front; the content of a part is the bytes before '
-              'the next delimiter minus exactly the length of the CRLF constant, the removed bytes are compared with that constant on the success path, and the '
-              'delimiter itself is consumed next; a file part with empty filename and empty content is delivered as an empty file list (both tests, nothing else); '
-              'each deserialize_* method of the field deserializer serves its own kind and answers an error for the other kind (text asked as file/sequence, files '
-              'asked as text, several files asked as one); the part-header names and the Content-Disposition literals are the RFC 7578 ones, names compared case-'
-              "insensitively; the name, filename and media type handed to a part are defined (or reset) inside the iteration of the part loop that reads that part's "
-              'headers, so no value carries over from an earlier part. Decides these clauses, not byte-exact decoding for all forms.')
+LEVEL_TEXT = ('Decides clauses C10-a..e: the parser appends parts in submission order and every later stage takes elements either first-in-first-out or last-in-first'
+              '-out; the number of last-in-first-out stages between the parse and the delivery of the files of one name is even (today two: Multipart::next pops the '
+              'part list, the file sequence pops the group), and no stage reverses, sorts or removes from the front; the content of a part is the bytes before the ne'
+              'xt delimiter minus exactly the length of the CRLF constant, the removed bytes are compared with that constant on the success path, and the delimiter i'
+              'tself is consumed next; a file part with empty filename and empty content is delivered as an empty file list (both tests, nothing else); each deserial'
+              'ize_* method of the field deserializer serves its own kind and answers an error for the other kind (text asked as file/sequence, files asked as text, '
+              'several files asked as one); the part-header names and the Content-Disposition literals are the RFC 7578 ones, names compared case-insensitively; the '
+              "name, filename and media type handed to a part are defined (or reset) inside the iteration of the part loop that reads that part's headers, so no valu"
+              'e carries over from an earlier part. C10-g: every success answer of Multipart::parse is dominated by the loop that reads the parts (no early empty for'
+              'm). Decides these clauses, not byte-exact decoding for all forms.')
 
 MP = r"^ohkami_lib::serde_multipart::parse::"
 FRONT_OR_REORDER = ("reverse", "rev", "remove", "insert", "swap_remove", "sort", "sort_by", "sort_unstable", "sort_by_key", "rotate_left", "rotate_right", "drain", "split_off", "swap", "retain", "dedup", "truncate")
@@ -36,6 +37,7 @@ def run(ck, progs):
         ck.guard("C10-d DECISION kind mismatch", lambda: c10d(ck, prog))
         ck.guard("C10-e TABLE part headers", lambda: c10e(ck, prog))
         ck.guard("C10-f ORDER per-part header state", lambda: c10f(ck, prog))
+        ck.guard("C10-g MUSTPASS no form answered unparsed", lambda: c10g(ck, prog))
     ck.config = None
 
 
@@ -404,3 +406,27 @@ def _refers_to(f, op, local):
         else:
             return False
     return pl[0] == local
+
+
+def c10g(ck, prog):
+    """`decodes to exactly the submitted fields`: every success answer of Multipart::parse is the list the part loop filled,
+    returned after that loop has run -- no early `Ok(empty list)` decided from the look of the boundary line (a boundary token
+    may itself end in `--`) or from any other test made before the parts were read."""
+    from .lib.bound import natural_loops
+    R = "C10-g MUSTPASS no form answered unparsed"
+    fs = [f for f in prog.fns.values() if re.search(r"serde_multipart::parse::Multipart(<'de>)?>?::parse$|serde_multipart::parse::.*Multipart.*::parse$", f.key) and f.name == "parse"]
+    if len(fs) != 1:
+        raise AnchorLost("Multipart::parse not found (%d)" % len(fs))
+    f = fs[0]
+    loops = natural_loops(f)
+    pushes = [c for c in f.calls() if c.name == "push" and any(c.bb in b for b in loops.values())]
+    if not pushes:
+        raise AnchorLost("the part loop of Multipart::parse (a push inside a loop) was not found")
+    body = max([b for b in loops.values() if pushes[0].bb in b], key=len)
+    header = [h for h, b in loops.items() if b is body][0]
+    oks = [bb for bb, kind, payload in paths.ret_sites(f) if kind == "Ok"]
+    early = [bb for bb in oks if not f.dominates(header, bb)]
+    ok = bool(oks) and not early
+    ck.ob(R, "parse:success-only-after-the-part-loop", ok, f.loc(None),
+          "" if ok else "Multipart::parse can answer Ok without having entered the loop that reads the parts (bb%s): a whole form is then decoded as empty -- Option / Vec fields silently become None / [] -- for inputs that merely look finished (a boundary token ending in `--`)" % early[:3],
+          how="%d Ok answer(s), all dominated by the part loop" % len(oks))
